@@ -223,25 +223,29 @@ class Gurobi:  # pragma: no cover
         :yields: Status of the solution, the objective value and the solution itself.
         """
 
+        # (a loop, not a recursion: an enumeration may well be longer than
+        #  the interpreter's recursion limit)
         try:
-            status, obj = self.solve(init)
-            best_obj = obj if best_obj is None else best_obj
-            if status != "optimal":
-                return
-            ub = (1 + gap) * best_obj
-            if abs(obj - ub) >= SOLVER_PRECISON and obj > ub:
-                return
+            while True:
+                status, obj = self.solve(init)
+                best_obj = obj if best_obj is None else best_obj
+                if status != "optimal":
+                    return
+                ub = (1 + gap) * best_obj
+                if abs(obj - ub) >= SOLVER_PRECISON and obj > ub:
+                    return
 
-            vv = {
-                self.varName(v): v
-                for v in self.variables()
-                if self.is_binary(v) and self.getValue(v) == 1
-            }
-            yield status, obj, sorted_tuple(set(vv.keys()))
+                vv = {
+                    self.varName(v): v
+                    for v in self.variables()
+                    if self.is_binary(v) and self.getValue(v) == 1
+                }
+                yield status, obj, sorted_tuple(set(vv.keys()))
 
-            if not limit or iteration + 1 < limit:
+                if limit and iteration + 1 >= limit:
+                    return
                 self.addConstr(self.quicksum(vv.values()) <= len(vv) - 1)
-                yield from self.solutions(gap, best_obj, limit, iteration + 1, init)
+                iteration += 1
         except NoSolutionsError:
             return
 
